@@ -41,14 +41,27 @@ deriving Repr, Inhabited, DecidableEq
 def Tok.isObj : Tok → Bool | .obj _ => true | _ => false
 def Tok.isObjOrNil : Tok → Bool | .obj _ => true | .nil => true | _ => false
 
+/-- object kinds: P plain struct, M probe with its own Mark instance, R Ref, B Box, A Array, L List, T Table, E Tree,
+    H heap Tuple.  (The op-file letters U / F are T / E constructed with Ref keys.) -/
 inductive Kind where
-  | P | M | R | B | A | L | T | U | E | F | H
+  | P | M | R | B | A | L | T | E | H
 deriving Repr, Inhabited, DecidableEq
 
 def Kind.isWords : Kind → Bool | .P | .M | .R | .B => true | _ => false
 def Kind.isSeq : Kind → Bool | .A | .L | .H => true | _ => false
-def Kind.isIntMap : Kind → Bool | .T | .E => true | _ => false
-def Kind.isRefMap : Kind → Bool | .U | .F => true | _ => false
+def Kind.isArr : Kind → Bool | .A | .L => true | _ => false
+def Kind.isMap : Kind → Bool | .T | .E => true | _ => false
+
+/-- the element / key / value types the histories use: Ref (reference-bearing), Int, String, Float (leaf types) -/
+inductive Ety where
+  | R | I | S | F
+deriving Repr, Inhabited, DecidableEq
+
+def Ety.name : Ety → String
+  | .R => "Ref" | .I => "Int" | .S => "String" | .F => "Float"
+
+def parseEty (c : Char) : Option Ety :=
+  if c = 'R' then some .R else if c = 'I' then some .I else if c = 'S' then some .S else if c = 'F' then some .F else none
 
 structure MObj where
   kind : Kind
@@ -56,8 +69,12 @@ structure MObj where
   root : Bool
   owner : Option Nat      -- the Box that owns this object
   el : Array Tok          -- slots, elements or map values
-  key : Array Int         -- map keys (T/E integers, U/F object ids)
+  key : Array Int         -- map keys (integers for Int / String keys, object ids for Ref keys)
+  kt : Ety := .R          -- CURRENT key type (T/E); redefined by `assign`
+  vt : Ety := .R          -- CURRENT element (A/L) or value (T/E) type; redefined by `assign`
 deriving Repr, Inhabited
+
+def MObj.refKeys (o : MObj) : Bool := o.kind.isMap && o.kt == .R
 
 def nRoots : Nat := 64
 def nTls : Nat := 64
@@ -96,20 +113,49 @@ def tokWord : Tok → Word
 
 def refObj (t : Tok) : Obj := .raw "Ref" [tokWord t]
 
-/-- the representation the collector sees for object `id` -/
+/-- the words of an embedded element of type `e` built from token `t`: a Ref holds the word, an Int holds the word as an
+    integer (an integer that equals an address is NOT a reference: Int is a leaf type), String / Float hold no word of interest -/
+def valWords (e : Ety) (t : Tok) : List Word :=
+  match e with
+  | .R | .I => [tokWord t]
+  | _ => [0]
+
+def keyWords (e : Ety) (k : Int) : List Word :=
+  match e with
+  | .R => [addrOf k.toNat]
+  | .I => [k.toNat]
+  | _ => [0]
+
+def MObj.kvs (o : MObj) : List (List Word × List Word) :=
+  (o.key.toList.zip o.el.toList).map fun (k, v) => (keyWords o.kt k, valWords o.vt v)
+
+/-- the representation the collector sees for object `id`: the embedded elements of a container carry the container's
+    CURRENT element / key / value types -/
 def toObj (id : Nat) (o : MObj) : Obj :=
   match o.kind with
   | .P => .raw "Probe" ([id, canaryOf id] ++ o.el.toList.map tokWord)
   | .M => .tup "ProbeM" ((o.el.toList.filter (· ≠ Tok.nil)).map tokWord)
   | .R => .raw "Ref" (o.el.toList.map tokWord)
   | .B => .raw "Box" (o.el.toList.map tokWord)
-  | .A => .cont "Array" (o.el.toList.map refObj)
-  | .L => .cont "List" (o.el.toList.map refObj)
-  | .T => .cont "Table" ((o.key.toList.zip o.el.toList).flatMap fun (k, v) => [.raw "Int" [k.toNat], refObj v])
-  | .U => .cont "Table" ((o.key.toList.zip o.el.toList).flatMap fun (k, v) => [.raw "Ref" [addrOf k.toNat], refObj v])
-  | .E => .cont "Tree" ((o.key.toList.zip o.el.toList).flatMap fun (k, v) => [.raw "Int" [k.toNat], refObj v])
-  | .F => .cont "Tree" ((o.key.toList.zip o.el.toList).flatMap fun (k, v) => [.raw "Ref" [addrOf k.toNat], refObj v])
+  | .A => .cont "Array" (seqElems o.vt.name (o.el.toList.map (valWords o.vt)))
+  | .L => .cont "List" (seqElems o.vt.name (o.el.toList.map (valWords o.vt)))
+  | .T => .cont "Table" (mapElems o.kt.name o.vt.name o.kvs)
+  | .E => .cont "Tree" (mapElems o.kt.name o.vt.name o.kvs)
   | .H => .tup "Tuple" (o.el.toList.map tokWord)
+
+mutual
+/-- structural equality of representations (for the driver's cross-check of the re-typing ops) -/
+def Obj.beq : Obj → Obj → Bool
+  | .raw t1 w1, .raw t2 w2 => t1 == t2 && w1 == w2
+  | .cont t1 e1, .cont t2 e2 => t1 == t2 && Obj.beqL e1 e2
+  | .tup t1 i1, .tup t2 i2 => t1 == t2 && i1 == i2
+  | .thr t1 a, .thr t2 b => t1 == t2 && Obj.beq a b
+  | _, _ => false
+def Obj.beqL : List Obj → List Obj → Bool
+  | [], [] => true
+  | a :: as, b :: bs => Obj.beq a b && Obj.beqL as bs
+  | _, _ => false
+end
 
 /-- `current(Thread)`: its `tls` Table (String → Ref) holds "__GC" → the collector itself (not registered) and the entries set by the history -/
 def threadObj (st : MState) : Obj :=
@@ -136,7 +182,7 @@ def MState.tokOk (st : MState) : Tok → Bool
 /-- does a usable object other than `id`, a stack slot other than `exceptSlot`, or a TLS entry hold a pointer to `id`? -/
 def MState.hasIncoming (st : MState) (id : Nat) (exceptSlot : Option Nat) : Bool :=
   st.objs.fold (fun acc i o =>
-    acc || (i != id && (o.el.any (· == Tok.obj id) || (o.kind.isRefMap && o.key.any (· == (id : Int)))))) false
+    acc || (i != id && (o.el.any (· == Tok.obj id) || (o.refKeys && o.key.any (· == (id : Int)))))) false
   || (st.roots.toList.zipIdx.any fun (t, j) => some j != exceptSlot && t == Tok.obj id)
   || st.tls.any (· == some (Tok.obj id))
 
@@ -184,12 +230,28 @@ def parseTok (s : String) : Option Tok :=
     | 's', some n => if n < 2 ^ 30 then some (.small n) else none
     | _, _ => none
 
-def parseKind (s : String) : Option (Kind × Bool) :=
+/-- kind letter → (kind, default key type, default element / value type) -/
+def kindOfLetter (ks : String) : Option (Kind × Ety × Ety) :=
+  match ks with
+  | "P" => some (.P, .R, .R) | "M" => some (.M, .R, .R) | "R" => some (.R, .R, .R) | "B" => some (.B, .R, .R)
+  | "A" => some (.A, .R, .R) | "L" => some (.L, .R, .R)
+  | "T" => some (.T, .I, .R) | "U" => some (.T, .R, .R) | "E" => some (.E, .I, .R) | "F" => some (.E, .R, .R)
+  | "H" => some (.H, .R, .R) | _ => none
+
+def parseKind (s : String) : Option ((Kind × Ety × Ety) × Bool) :=
   let (ks, rf) := if s.length = 2 ∧ s.back = '!' then ((s.take 1).toString, true) else (s, false)
-  let k : Option Kind := match ks with
-    | "P" => some .P | "M" => some .M | "R" => some .R | "B" => some .B | "A" => some .A | "L" => some .L
-    | "T" => some .T | "U" => some .U | "E" => some .E | "F" => some .F | "H" => some .H | _ => none
-  k.map (·, rf)
+  (kindOfLetter ks).map (·, rf)
+
+/-- the type argument of `new` for a container: `-` (the kind's defaults), one letter (A/L: element type) or two letters
+    (T/U/E/F: key type R|I|S, value type R|I|S|F) -/
+def parseTypes (kind : Kind) (kt vt : Ety) (arg : String) : Option (Ety × Ety) :=
+  if arg = "-" then some (kt, vt)
+  else if kind.isArr ∧ arg.length = 1 then (parseEty arg.front).map (kt, ·)
+  else if kind.isMap ∧ arg.length = 2 then
+    match parseEty arg.front, parseEty arg.back with
+    | some k, some v => if k = .F then none else some (k, v)
+    | _, _ => none
+  else none
 
 /-- `-` (nowhere) or `s<j>` -/
 def parseWhere (s : String) : Option (Option Nat) :=
@@ -200,20 +262,18 @@ def parseWhere (s : String) : Option (Option Nat) :=
     | none => none
   else none
 
-def chainKind (s : String) : Option Kind :=
+def chainKind (s : String) : Option (Kind × Ety × Ety) :=
   match s with
-  | "R" => some .R | "P" => some .P | "A" => some .A | "H" => some .H | "U" => some .U | "L" => some .L | "E" => some .E | _ => none
+  | "R" | "P" | "A" | "H" | "U" | "L" | "E" => kindOfLetter s
+  | _ => none
 
 def natOf (v : Int) : Option Nat := if 0 ≤ v then some v.toNat else none
 
 /-- register a new object (`alloc` → `GC_Set`), store it in a stack slot, full mode: checkpoint -/
-def MState.doNew (st : MState) (id : Nat) (kind : Kind) (k : Nat) (rf : Bool) (boxTgt : Option Nat) (slot : Option Nat) :
+def MState.doNewObj (st : MState) (id : Nat) (o : MObj) (boxTgt : Option Nat) (slot : Option Nat) :
     MState × List Nat :=
-  let el : Array Tok := if kind.isWords then Array.replicate k Tok.nil else #[]
-  let el := match kind, boxTgt with | .B, some t => el.setIfInBounds 0 (Tok.obj t) | _, _ => el
-  let o : MObj := { kind, k := if kind.isWords then k else 0, root := rf, owner := none, el, key := #[] }
   let objs := st.objs.insert id o
-  let objs := match kind, boxTgt with
+  let objs := match o.kind, boxTgt with
     | .B, some t => objs.modify t (fun ot => { ot with owner := some id })
     | _, _ => objs
   let st := { st with
@@ -222,6 +282,35 @@ def MState.doNew (st : MState) (id : Nat) (kind : Kind) (k : Nat) (rf : Bool) (b
     minId := some (match st.minId with | some m => min m id | none => id)
     maxId := some (match st.maxId with | some m => max m id | none => id) }
   if st.full then st.checkpoint else (st, [])
+
+def MState.doNew (st : MState) (id : Nat) (kte : Kind × Ety × Ety) (k : Nat) (rf : Bool) (boxTgt : Option Nat) (slot : Option Nat) :
+    MState × List Nat :=
+  let kind := kte.1
+  let el : Array Tok := if kind.isWords then Array.replicate k Tok.nil else #[]
+  let el := match kind, boxTgt with | .B, some t => el.setIfInBounds 0 (Tok.obj t) | _, _ => el
+  let o : MObj := { kind, k := if kind.isWords then k else 0, root := rf, owner := none, el, key := #[], kt := kte.2.1, vt := kte.2.2 }
+  st.doNewObj id o boxTgt slot
+
+/-- what `Ref_Assign(elem, item)` stores for a stored pointer of a heap Tuple: `deref(item)` when the item is a Ref -/
+def MState.derefTok (st : MState) (t : Tok) : Tok :=
+  match t with
+  | .obj j =>
+    match st.objs[j]? with
+    | some oj => if oj.kind = .R then (oj.el[0]?).getD Tok.nil else t
+    | none => t
+  | _ => t
+
+/-- `assign(dst, src)` on the histories' objects: `none` = not a combination the histories use -/
+def MState.assignObj (st : MState) (od os : MObj) : Option MObj :=
+  if od.kind.isArr && os.kind.isArr then some { od with vt := os.vt, el := os.el }
+  else if od.kind.isArr && os.kind = .H then
+    if os.el.any (fun t => match t with
+        | .obj j => (match st.objs[j]? with | some oj => oj.kind = .B | none => true)
+        | _ => true) then none
+    else some { od with vt := .R, el := os.el.map st.derefTok }
+  else if od.kind.isMap && os.kind.isMap then some { od with kt := os.kt, vt := os.vt, el := os.el, key := os.key }
+  else if od.kind = .H && os.kind = .H then some { od with el := os.el }
+  else none
 
 def MObj.mapFind (o : MObj) (key : Int) : Option Nat := o.key.findIdx? (· == key)
 
@@ -240,8 +329,8 @@ def MState.link (st : MState) (a b : Nat) : MState :=
   | some o =>
     if o.kind.isWords then { st with objs := st.objs.modify a fun o => { o with el := o.el.setIfInBounds 0 (Tok.obj b) } }
     else if o.kind.isSeq then st.seqPush a (Tok.obj b)
-    else if o.kind.isIntMap then st.mapSet a 7 (Tok.obj b)
-    else st.mapSet a (b : Int) (Tok.obj b)
+    else if o.refKeys then st.mapSet a (b : Int) (Tok.obj b)
+    else st.mapSet a 7 (Tok.obj b)
 
 /-- explicit del: the object leaves the registry; a Box takes the object it owns with it -/
 def MState.del (st : MState) (id : Nat) : Nat → MState × Nat
@@ -271,11 +360,13 @@ def MState.step (st : MState) (w : List String) : MState × List String :=
     match args with
     | [ids, ks, arg, wh] =>
       match (parseLong ids).bind natOf, parseKind ks, parseWhere wh with
-      | some id, some (kind, rf), some slot =>
+      | some id, some (kte, rf), some slot =>
+        let kind := kte.1
         if id ≥ maxObj || st.used.contains id then bad st else
-        let go (k : Nat) (bt : Option Nat) : MState × List String :=
-          let (st', live) := st.doNew id kind k rf bt slot
+        let goT (kte : Kind × Ety × Ety) (k : Nat) (bt : Option Nat) : MState × List String :=
+          let (st', live) := st.doNew id kte k rf bt slot
           (st', [if st.full then s!"O new {id} live={setText live}" else s!"O new {id}"])
+        let go := goT kte
         match kind with
         | .P =>
           match (parseLong arg).bind natOf with
@@ -289,7 +380,10 @@ def MState.step (st : MState) (w : List String) : MState × List String :=
               if st.owned t || st.ghost.contains t || ot.kind = .B || ot.root || st.hasIncoming t slot then bad st else go 1 (some t)
             | none => bad st
           | none => bad st
-        | _ => if arg ≠ "-" then bad st else go (if kind = .M then 4 else if kind = .R then 1 else 0) none
+        | _ =>
+          match parseTypes kind kte.2.1 kte.2.2 arg with
+          | some (kt, vt) => goT (kind, kt, vt) (if kind = .M then 4 else if kind = .R then 1 else 0) none
+          | none => bad st
       | _, _, _ => bad st
     | _ => bad st
   | "pair" :: args =>
@@ -302,8 +396,8 @@ def MState.step (st : MState) (w : List String) : MState × List String :=
         else if st.full && slot.isNone then bad st
         else
           let full := st.full
-          let (s1, _) := ({ st with full := false }).doNew ia .R 1 false none none
-          let (s2, _) := s1.doNew ib .R 1 false none slot
+          let (s1, _) := ({ st with full := false }).doNew ia (.R, .R, .R) 1 false none none
+          let (s2, _) := s1.doNew ib (.R, .R, .R) 1 false none slot
           let s3 := { (s2.link ib ia) with full := full }
           let (s4, live) := if full then s3.checkpoint else (s3, [])
           (s4, [if full then s!"O pair {ia} {ib} live={setText live}" else s!"O pair {ia} {ib}"])
@@ -355,9 +449,9 @@ def MState.step (st : MState) (w : List String) : MState × List String :=
       match st.objs[id]? with
       | some o =>
         if !st.tokOk t || !t.isObjOrNil then bad st
-        else if o.kind.isRefMap then
+        else if o.refKeys then
           (if key < 0 || !st.usable key.toNat || st.owned key.toNat then bad st else (st.mapSet id key t, ["O ok"]))
-        else if o.kind.isIntMap then (st.mapSet id key t, ["O ok"])
+        else if o.kind.isMap then (st.mapSet id key t, ["O ok"])
         else bad st
       | none => bad st
     | _, _, _ => bad st
@@ -366,11 +460,11 @@ def MState.step (st : MState) (w : List String) : MState × List String :=
     | some id, some key =>
       match st.objs[id]? with
       | some o =>
-        if !(o.kind.isIntMap || o.kind.isRefMap) then bad st else
+        if !o.kind.isMap then bad st else
         match o.mapFind key with
         | none => bad st
         | some i =>
-          if o.kind.isRefMap && (key < 0 || !st.usable key.toNat) then bad st
+          if o.refKeys && (key < 0 || !st.usable key.toNat) then bad st
           else
             let last := o.el.size - 1
             let o' := { o with el := (o.el.setIfInBounds i (o.el[last]!)).pop, key := (o.key.setIfInBounds i (o.key[last]!)).pop }
@@ -394,6 +488,61 @@ def MState.step (st : MState) (w : List String) : MState × List String :=
     | some j, some t =>
       if j ≥ nRoots || !st.tokOk t || !t.isObjOrNil then bad st
       else ({ st with roots := st.roots.setIfInBounds j t }, ["O ok"])
+    | _, _ => bad st
+  | ["assign", ds, ss] =>
+    match (parseLong ds).bind natOf, (parseLong ss).bind natOf with
+    | some d, some s =>
+      match st.objs[d]?, st.objs[s]? with
+      | some od, some os =>
+        if d = s then bad st else
+        match st.assignObj od os with
+        | some od' =>
+          -- cross-check inside the model: the op on the history's objects is `Obj.assignFrom` (what the theorems are about)
+          let agree := Obj.beq (toObj d od') ((toObj d od).assignFrom st.heap (toObj s os))
+          ({ st with objs := st.objs.insert d od' }, ["O ok", s!"R retype={if agree then "agree" else "differ"}"])
+        | none => bad st
+      | _, _ => bad st
+    | _, _ => bad st
+  | "copy" :: args =>
+    let st := { st with started := true }
+    match args with
+    | [ids, ss, wh] =>
+      match (parseLong ids).bind natOf, (parseLong ss).bind natOf, parseWhere wh with
+      | some id, some s, some slot =>
+        if id ≥ maxObj || st.used.contains id then bad st else
+        match st.objs[s]? with
+        | some os =>
+          if !(os.kind.isArr || os.kind.isMap || os.kind = .H) then bad st else
+          let o : MObj := { os with root := false, owner := none }
+          let agree := Obj.beq (toObj id o) ((toObj s os).copyOf st.heap)
+          let (st', live) := st.doNewObj id o none slot
+          (st', [if st.full then s!"O copy {id} live={setText live}" else s!"O copy {id}", s!"R retype={if agree then "agree" else "differ"}"])
+        | none => bad st
+      | _, _, _ => bad st
+    | _ => bad st
+  | ["clear", ids] =>
+    match (parseLong ids).bind natOf with
+    | some id =>
+      match st.objs[id]? with
+      | some o =>
+        if !(o.kind.isArr || o.kind.isMap) then bad st else
+        let o' := { o with el := #[], key := #[] }
+        let agree := Obj.beq (toObj id o') (toObj id o).cleared
+        ({ st with objs := st.objs.insert id o' }, ["O ok", s!"R retype={if agree then "agree" else "differ"}"])
+      | none => bad st
+    | none => bad st
+  | ["trunc", ids, ns] =>
+    match (parseLong ids).bind natOf, (parseLong ns).bind natOf with
+    | some id, some n =>
+      match st.objs[id]? with
+      | some o =>
+        if o.kind.isArr then
+          (if n < 1 || n > o.el.size then bad st
+           else ({ st with objs := st.objs.insert id { o with el := o.el.extract 0 n } }, ["O ok"]))
+        else if o.kind = .T then
+          (if n < 1 || n < o.el.size || n > 4096 then bad st else (st, ["O ok"]))     -- resize(table, n): a rehash, same contents
+        else bad st
+      | none => bad st
     | _, _ => bad st
   | ["del", ids] =>
     match (parseLong ids).bind natOf with
@@ -459,10 +608,11 @@ def MState.step (st : MState) (w : List String) : MState × List String :=
   | ["deepchild", ns, ks] =>
     match (parseLong ns).bind natOf, chainKind ks with
     | some n, some kind =>
-      if n < 1 || n > 50000000 || !(kind = .R ∨ kind = .P ∨ kind = .A ∨ kind = .H) then bad st
+      if n < 1 || n > 50000000 || !(kind.1 = .R ∨ kind.1 = .P ∨ kind.1 = .A ∨ kind.1 = .H) then bad st
       else (st, [s!"O deepchild {n}"])
     | _, _ => bad st
   | ["danglechild", k] => if k = "H" || k = "M" then (st, [s!"O danglechild {k}"]) else bad st
+  | ["aliaschild", k] => if k = "A" || k = "L" then (st, [s!"O aliaschild {k}"]) else bad st
   | _ => bad st
 
 end Cello.Heap
